@@ -165,6 +165,18 @@ func decodeLogEntry(r io.Reader) (LogEntry, error) {
 	return entry, nil
 }
 
+// countingReader counts the number of bytes read from the underlying reader.
+type countingReader struct {
+	reader io.Reader
+	count  int64
+}
+
+func (c *countingReader) Read(p []byte) (int, error) {
+	n, err := c.reader.Read(p)
+	c.count += int64(n)
+	return n, err
+}
+
 // persistentLog implements the Log interface. Not concurrent safe.
 type persistentLog struct {
 	// The in-memory log entries of the log.
@@ -207,17 +219,35 @@ func (l *persistentLog) Open() error {
 }
 
 func (l *persistentLog) Replay() error {
-	reader := bufio.NewReader(l.file)
+	reader := &countingReader{reader: bufio.NewReader(l.file)}
+
+	// The offset of the end of the last complete record in the file.
+	var size int64
 
 	for {
 		entry, err := decodeLogEntry(reader)
-		if errors.Is(err, io.EOF) {
+		if errors.Is(err, io.EOF) || errors.Is(err, io.ErrUnexpectedEOF) {
 			break
 		}
 		if err != nil {
 			return fmt.Errorf("could not decode log entry: %w", err)
 		}
+		size = reader.count
 		l.entries = append(l.entries, &entry)
+	}
+
+	// A crash in the middle of an append may have left a partially written record
+	// at the end of the file. Remove it so that new records are not written after it.
+	if reader.count != size {
+		if err := l.file.Truncate(size); err != nil {
+			return fmt.Errorf("could not truncate log file: %w", err)
+		}
+		if err := l.file.Sync(); err != nil {
+			return fmt.Errorf("could not sync log file: %w", err)
+		}
+	}
+	if _, err := l.file.Seek(size, io.SeekStart); err != nil {
+		return fmt.Errorf("could not seek log file: %w", err)
 	}
 
 	// The log must always contain at least one entry.
